@@ -30,7 +30,7 @@ def plans(ctx):
             R.Plan("t1a", "S_t1a", emit_mod=8, max_inst=1, max_pw=1, opts=CLS),
             R.Plan("t1c", "S_t1c", emit_mod=12, max_inst=1, max_pw=2),
             R.Plan("two", "S_t1d", emit_mod=30, ids="Ids2", max_inst=1, max_pw=0, pw_on=False, opts=CLS),
-            R.Plan("sim", "S_t1a", simulate="num=500", depth=50, workers=8, rich=True, ids="Ids2", max_inst=6, max_pw=3,
+            R.Plan("sim", "S_t1a", simulate="num=60", depth=50, workers=8, rich=True, ids="Ids2", max_inst=6, max_pw=3,
                    stray=1, opts=CLS)]
 
 
